@@ -29,6 +29,19 @@ def jobs_for(kind, n, seed):
             elif k % 8 == 3:
                 j['ops'] = [dict(at=at, op='stop', state=rnd.choice(['ERROR', 'CANCELLED', 'SUCCESS']))]
         return js
+    if kind == 'pb':
+        js = ec.random_jobs(rnd, n, schedulers=('default', 'legacy'), label=kind,
+                            gen_kw=dict(partial_joins=False, p_join=1.0, p_retry=0.15, p_policy=0.3, p_cmd=0.0, p_err=0.25, p_pause=0.35, policy_on_joins=0.3))
+        for j in js:
+            npb = sum(1 for d in j['prog'].tasks.values() if d.get('pause-before'))
+            ops = []
+            for _ in range(npb + 1):
+                if rnd.random() < 0.5:
+                    ops.append(dict(at=10 ** 6, op='wait'))
+                ops.append(dict(at=10 ** 6, op='resume'))
+            j['ops'] = ops
+            j['max_steps'] = 600
+        return js
     if kind == 'rerun':
         gk = dict(partial_joins=True, p_join=0.7, p_items=(0.2 if seed % 2 else 0.0), p_retry=0.1, p_cmd=0.05, p_err=0.45)
         js = ec.random_jobs(rnd, n, schedulers=('default', 'legacy'), label=kind, gen_kw=gk)
